@@ -25,7 +25,7 @@ RULE_TEXT = ("one run = one generated chart x one history, snapshots at every st
 ASSUMPTIONS = [
     "snapshot points are sampled (up to 3 of the stable points per original run), not all enumerated",
     "downtime is zero: the resumed interpreter continues at the simulated instant of the snapshot; how real downtime should count for pending delays is not specified by the property",
-    "charts without invoke (nested sessions are serialized through the same code but are not generated here)",
+    "invocations: 35% of the lua/promela charts invoke the harness's thread-free 'echo' invoker (replies reveal the arguments it was started with); invoked SCXML sessions are not generated here (USCXMLInvoker::serialize waits for a child that is blocked in step(), see DESIGN.md 0.7)",
 ]
 
 
@@ -38,6 +38,8 @@ def gen_plan(seed, k):
     rp = usimlib.substream(seed, "plan")
     dm = rp.choice(["lua", "lua", "promela", "null"])
     root = p_c01.gen_chart(rp, dm, {"sends": True, "hist_p": 0.45, "par_p": 0.2})
+    if dm != "null" and rp.random() < 0.35:
+        add_echo_invocation(root, rp, dm)
     engine = rp.choice(["large", "fast"])
     ops = [{"op": "create", "i": 0, "chart": "main", "engine": engine}, {"op": "validate", "i": 0}]
     hist = p_c01.history_ops(rp, many=(True if (root.meta or {}).get("par_bias") and rp.random() < 0.8 else None))
@@ -54,6 +56,39 @@ def gen_plan(seed, k):
     return {"id": k, "seed": seed, "entropy_seed": seed & 0x7fffffff, "engine": engine,
             "sched": {"seed": seed & 0x7fffffff, "policy": "nonpreempt", "max_decisions": 400000},
             "charts": {"main": root.xml(), "other": other.xml()}, "actors": {"main": ops}}
+
+
+def add_echo_invocation(root, rp, dm):
+    """An invocation of the harness's thread-free 'echo' invoker (harness/echo.cpp) whose argument is a datamodel value
+    that the invoking state changes on entry; transitions ping it, and its replies carry the argument it was started
+    with.  A restored session re-creates the invocation: it must be given the restored value."""
+    from scx import El
+    states = [e for e in root.walk() if e.tag == "state"]
+    if not states:
+        return
+    dmel = [c for c in root.children if c.tag == "datamodel"]
+    if not dmel:
+        dmel = [El("datamodel")]
+        root.children.insert(0, dmel[0])
+        dmel[0].parent = root
+    at = {"id": "vinv", "expr": "1"}
+    if dm == "promela":
+        at["type"] = "int"
+    dmel[0].add(El("data", at))
+    st = rp.choice(states)
+    st.add(El("onentry", children=[El("assign", {"location": "vinv", "expr": "vinv + 4"})]))
+    st.add(El("invoke", {"type": "echo", "id": "ech"}, children=[El("param", {"name": "p", "expr": "vinv"})]))
+    # pinged from where the invocation is running: by the invoking state itself and by transitions below it (a few
+    # from elsewhere, too: these fail with error.communication in both runs)
+    ping = El("transition", {"event": "a b c d"}, children=[El("send", {"target": "#_ech", "event": "ping"})])
+    st.children.insert(0, ping)
+    ping.parent = st
+    below = [t for t in st.walk() if t.tag == "transition" and t is not ping and t.attrs.get("event") and t.parent.tag in ("state", "parallel")]
+    trans = [t for t in root.walk() if t.tag == "transition" and t is not ping and t.attrs.get("event") and t.parent.tag in ("state", "parallel")]
+    for t in rp.sample(below, min(len(below), rp.randint(1, 4))) + rp.sample(trans, min(len(trans), rp.randint(0, 2))):
+        t.add(El("send", {"target": "#_ech", "event": "ping"}))
+    if rp.random() < 0.5:
+        st.add(El("transition", {"event": "echo"}, children=[El("log", {"label": "echo", "expr": "_event.name" if dm == "lua" else "vinv"})]))
 
 
 def resume_plan(plan, op_index, snapshot_text, t_us):
